@@ -148,7 +148,7 @@ def rules_with_option(opt):
 
 def themed_conf(rnd):
     """a coordinated, project-style configuration: one convention applied to every rule that has the option"""
-    theme = rnd.choice(["affix", "affix", "optional_items", "case", "spaces", "alignment", "enable_disabled", "structure_options"])
+    theme = rnd.choice(["affix", "affix", "optional_items", "case", "spaces", "alignment", "enable_disabled", "structure_options", "report_only"])
     conf = {"rule": {}}
     R = conf["rule"]
     if theme == "affix":
@@ -189,6 +189,14 @@ def themed_conf(rnd):
         for rid in _default_disabled():
             if rnd.random() < 0.8:
                 R.setdefault(rid, {})["disable"] = False
+    elif theme == "report_only":
+        # a project that only wants to be told about some classes of problems: warnings and report-only groups
+        g = {}
+        for grp in rnd.sample(["case", "whitespace", "blank_line", "alignment", "indent", "length", "naming"], k=rnd.randint(1, 3)):
+            g[grp] = {"severity": "Warning"}
+        for grp in rnd.sample(["structure", "whitespace", "blank_line", "indent"], k=rnd.randint(1, 2)):
+            g.setdefault(grp, {})["fixable"] = False
+        R["group"] = g
     elif theme == "structure_options":
         br = by_rule()
         for rid in sorted(br):
